@@ -377,7 +377,19 @@ class Interp:
                 if is_node(c):
                     self.expr2(c)
             return ("unk", e[0]), False
-        r = m(e)
+        saved = (len(self.ctx), len(self.loopstack), len(self.env), len(self.callstack), self.cur_item)
+        try:
+            r = m(e)
+        except (IndexError, TypeError, KeyError, ValueError, AttributeError) as ex:
+            del self.ctx[saved[0]:]
+            del self.loopstack[saved[1]:]
+            if len(self.env) > saved[2]:
+                del self.env[saved[2]:]
+            del self.callstack[saved[3]:]
+            self.cur_item = saved[4]
+            # a syntax shape the interpreter does not model: the value is unknown, the analysis goes on (the rules fail closed on what they then miss)
+            self.undecided.append("%s: %s" % (e[0], ex))
+            return ("unk", e[0]), False
         if isinstance(r, tuple) and len(r) == 2 and isinstance(r[1], bool) and isinstance(r[0], tuple):
             return r
         return r, False
